@@ -17,6 +17,7 @@ import importlib
 import json
 import os
 import shutil
+import signal
 import subprocess
 import sys
 import tempfile
@@ -75,7 +76,15 @@ def _run_chunk(args):
            "samples": [], "alldigests": []}
     for i in indices:
         rng = core.make_rng(pid, master, i)
-        r = prop.run(rng, i, tier)
+        try:
+            r = prop.run(rng, i, tier)
+        except BaseException:   # a bug in the harness, never a verdict
+            core.METER.end()
+            out["harness_errors"] = out.get("harness_errors", 0) + 1
+            out.setdefault("harness_tb", "run %d: %s" % (
+                i, traceback.format_exc()[-3000:]))
+            out["runs"] += 1
+            continue
         out["runs"] += 1
         out["evals"] += r.evals
         dc, df = r.log.digests()
@@ -109,7 +118,7 @@ def worker_main(a):
     chunks = [idx[j:j + chunk] for j in range(0, len(idx), chunk)]
     merged = {"runs": 0, "evals": 0, "steps": 0, "stats": {},
               "violations": [], "nviol": 0, "samples": [],
-              "alldigests": []}
+              "alldigests": [], "harness_errors": 0, "harness_tb": None}
     digests = array.array("Q")
     master = master_seed()
     if a.procs <= 1:
@@ -126,6 +135,9 @@ def worker_main(a):
         merged["evals"] += r["evals"]
         merged["steps"] += r["steps"]
         merged["nviol"] += r["nviol"]
+        merged["harness_errors"] += r.get("harness_errors", 0)
+        if r.get("harness_tb") and not merged["harness_tb"]:
+            merged["harness_tb"] = r["harness_tb"]
         digests.extend(r["digests"])
         merged["alldigests"].extend(r["alldigests"])
         for k, v in r["stats"].items():
@@ -228,7 +240,8 @@ def check_main(a):
             cmd = [PY, "-B", os.path.abspath(__file__), "_worker", prop.ID,
                    "--tier", tier, "--klass", str(k), "--K", str(K),
                    "--runs", str(runs), "--procs", str(procs), "--out", out]
-            children.append((k, out, subprocess.Popen(cmd, env=env)))
+            children.append((k, out, subprocess.Popen(
+                cmd, env=env, start_new_session=True)))
         cap = WALL_CAP[tier]
         results = []
         harness_error = None
@@ -249,12 +262,14 @@ def check_main(a):
             r["_digests"] = d
             results.append(r)
         if harness_error:
-            for _, _, p in children:
-                if p.poll() is None:
-                    p.kill()
             print("HARNESS-ERROR: %s" % harness_error, flush=True)
             return 2
     finally:
+        for _, _, p in children:
+            try:    # the whole process group: class worker and its pool
+                os.killpg(p.pid, signal.SIGKILL)
+            except (ProcessLookupError, PermissionError):
+                pass
         shutil.rmtree(scratch, ignore_errors=True)
 
     # ---- merge
@@ -276,6 +291,13 @@ def check_main(a):
         alld.extend(r["_digests"])
         alldig.extend(r["alldigests"])
     distinct = len(set(alld))
+    herr = sum(r.get("harness_errors", 0) for r in results)
+    if herr:
+        tb = [r["harness_tb"] for r in results if r.get("harness_tb")][0]
+        print(tb, flush=True)
+        print("HARNESS-ERROR: %d runs raised inside the harness" % herr,
+              flush=True)
+        return 2
     if tot["runs"] != runs:
         print("HARNESS-ERROR: runs_done=%d runs_planned=%d" %
               (tot["runs"], runs), flush=True)
